@@ -395,6 +395,29 @@ func fbFrontEnd() (*fbServer, string, *grpc.ClientConn) {
 	return fbSrv, fbSrvAddr, fbReadyCon
 }
 
+// fbFreshReadyConn returns a Ready client connection, re-dialling when the shared one was closed (bess.Exit closes the
+// connection it was given). Must be called outside the cooperative scheduler: it waits in real time.
+func fbFreshReadyConn() *grpc.ClientConn {
+	_, addr, c := fbFrontEnd()
+	if c.GetState() != connectivity.Shutdown {
+		return c
+	}
+	nc, err := grpc.NewClient(addr, grpc.WithTransportCredentials(insecure.NewCredentials()))
+	if err != nil {
+		panic("VERIF-INFRA: " + err.Error())
+	}
+	nc.Connect()
+	ctx, cancel := context.WithTimeout(context.Background(), 20*time.Second)
+	defer cancel()
+	for nc.GetState() != connectivity.Ready {
+		if !nc.WaitForStateChange(ctx, nc.GetState()) {
+			panic("VERIF-INFRA: fake BESS front end: connection did not become ready")
+		}
+	}
+	fbReadyCon = nc
+	return nc
+}
+
 func (s *fbServer) attach(f *fakeBESS) {
 	s.mu.Lock()
 	s.cur = f
